@@ -394,8 +394,10 @@ def handleOps (op : String) (args : List String) (impl : Impl) : Option Ans :=
     -- spec: the provider holds exactly the data lines of the file, and answers with the step function of the file
     let sp := match impl with
       | .ok [ents, ans] =>
-        let want := (txt.splitOn "\n").filter (fun l => !l.isEmpty && l.front != '#') |>.map (fun l =>
-          let cols := (l.split (fun c => c == ' ' || c == '\t')).toList.map (·.toString) |>.filter (· ≠ "")
+        -- columns are separated by blanks, tabs (and the CR of a CR LF line end); a line without any column is blank
+        let colsOf (l : String) : List String := (l.split (fun c => c == ' ' || c == '\t' || c == '\r')).toList.map (·.toString) |>.filter (· ≠ "")
+        let want := (txt.splitOn "\n").filter (fun l => !(colsOf l).isEmpty && l.front != '#') |>.map (fun l =>
+          let cols := colsOf l
           (cols.getD 0 "") ++ "/" ++ (cols.getD 1 "") ++ "/1")
         let pairs : List (Int × Int) := want.filterMap (fun w => match w.splitOn "/" with
           | [a, b, _] => (match a.toInt?, b.toInt? with | some a, some b => some (a, b) | _, _ => none)
